@@ -17,7 +17,7 @@ from ..gen import typing as T
 PROPERTY = 'C07'
 RULE = ('(a) 60 value providers (variables, literals, shrinkable and non-shrinkable arithmetic, const scalars, casts, elements, calls, arrays, '
         'array literals) x 12 target types x 8 positions (argument, declaration, const declaration, assignment, element assignment, return, '
-        'literal element); every operator / cast / ?? / index / length / VLA-length operand typing; (b) 125 single-rule ill-typing mutations; '
+        'literal element); every operator / cast / ?? / index / length / VLA-length operand typing; (b) 125 single-rule ill-typing mutations and 43 return-path shapes (25 whose end is reachable, 18 closed counterparts); '
         '(c) overload sets of 1-4 signatures over 9 parameter types in every declaration order, called with every provider; '
         'non-trivial = every case (distinct rule x position); distinct by tag')
 ASSUMPTIONS = ['expected accept/reject is my implementation of README "Types" / "Arrays and strings" / "The speculation operator"; cases the '
@@ -30,6 +30,7 @@ def plan(tier, seed):
     specs = [{'kind': 'coercions', 'part': i, 'parts': 6} for i in range(6)]
     specs += [{'kind': 'operators', 'part': i, 'parts': 4} for i in range(4)]
     specs.append({'kind': 'mutations'})
+    specs.append({'kind': 'returns'})
     n = 4 if tier == 'quick' else 16
     for j in range(n):
         specs.append({'kind': 'overloads', 'seed': seed * 1000 + j, 'count': 60 if tier == 'quick' else 200})
@@ -91,6 +92,10 @@ def run_shard(spec):
         for i, (tag, src, exp) in enumerate(T.operator_cases()):
             if src is None or i % spec['parts'] != spec['part']:
                 continue
+            judge(res, tag, src, exp)
+        res['exhaustive'] = True
+    elif k == 'returns':
+        for tag, src, exp in T.return_cases():
             judge(res, tag, src, exp)
         res['exhaustive'] = True
     elif k == 'mutations':
